@@ -172,7 +172,7 @@ def case_update(dim, shape):
     return CaseResult(fails=fails, states=states, transitions=trans, traces=trans, outcome=f"update:{dim}:{shape}:{nz}")
 
 
-def case_monitor(shape, dtype, poisson, pattern):
+def case_monitor(shape, dtype, poisson, pattern, transport=False):
     """3-D simulator's own divergence monitor after a curl-type (forcing) update."""
     import sopht.simulator as sps
 
@@ -180,7 +180,7 @@ def case_monitor(shape, dtype, poisson, pattern):
     shape = tuple(shape)
     sim = sps.UnboundedNavierStokesFlowSimulator3D(
         grid_size=shape, x_range=1.0, kinematic_viscosity=0.02, real_t=dtype, with_forcing=True,
-        poisson_solver_type=poisson, num_threads=False,
+        poisson_solver_type=poisson, num_threads=False, **({"penalty_zone_width": 0} if transport else {}),
     )
     fails = []
     n = int(np.prod(shape))
@@ -189,7 +189,25 @@ def case_monitor(shape, dtype, poisson, pattern):
     m = 5
     inner = (slice(None), *[slice(m, s - m) for s in shape])
     sim.eul_grid_forcing_field[inner] = vals[inner].astype(dtype)
-    before = sim.get_vorticity_divergence_l2_norm()
+    if transport:
+        # rotational-form transport too: start from a discretely divergence-free vorticity (central-difference curl of a
+        # compactly supported vector potential) in a generic velocity field; curl(u x omega), the Laplacian and the
+        # forcing curl all keep div_h(omega) = 0
+        from refmodel import flowstep
+
+        pot = np.zeros((3, *shape))
+        m2 = 6
+        inner2 = (slice(None), *[slice(m2, s_ - m2) for s_ in shape])
+        pot[inner2] = np.cos(0.7 * i + 0.4 * pattern).reshape((3, *shape))[inner2]
+        sim.vorticity_field[...] = (flowstep.curl3(pot) / (2 * float(sim.dx))).astype(dtype)
+        sim.velocity_field[...] = (0.6 * np.sin(1.3 * i + 0.2) + 0.1).reshape((3, *shape)).astype(dtype)
+        start = sim.get_vorticity_divergence_l2_norm()
+        scale0 = float(np.linalg.norm(sim.vorticity_field)) * float(sim.dx) ** 0.5
+        if not start <= 200 * np.finfo(dtype).eps * max(scale0, 1e-30):
+            from harness.interp import HarnessError
+
+            raise HarnessError(f"C12 monitor: initial vorticity is not discretely divergence-free ({start})")
+    before = 0.0 if transport else sim.get_vorticity_divergence_l2_norm()
     sim.time_step(dt=dtype(0.01))
     after = sim.get_vorticity_divergence_l2_norm()
     scale = float(np.linalg.norm(sim.vorticity_field)) / float(sim.dx) * float(sim.dx) ** 1.5
@@ -197,12 +215,12 @@ def case_monitor(shape, dtype, poisson, pattern):
     if not (before == 0.0):
         fails.append(Fail("monitor:initial", "divergence monitor non-zero on the zero field", value=float(before)))
     if not np.isfinite(after) or after > tol:
-        fails.append(Fail("monitor:divergence-created", "a curl-type vorticity update created divergence of vorticity (simulator's own monitor)", after=float(after), tol=tol, scale=scale, poisson=poisson))
+        fails.append(Fail("monitor:divergence-created", "a curl-type vorticity update created divergence of vorticity (simulator's own monitor)", after=float(after), tol=tol, scale=scale, poisson=poisson, shape=shape, with_transport=transport))
     if not np.any(sim.vorticity_field != 0):
         from harness.interp import HarnessError
 
         raise HarnessError("C12 monitor vacuous")
-    return CaseResult(fails=fails, states=1, transitions=2, traces=2, outcome=f"monitor:{shape}:{poisson}:{after > 0}", extra={"divergence_norm": float(after), "tol": tol})
+    return CaseResult(fails=fails, states=1, transitions=2, traces=2, outcome=f"monitor:{shape}:{poisson}:{transport}:{after > 0}", extra={"divergence_norm": float(after), "tol": tol})
 
 
 CASES = {"divcurl": case_divcurl, "2d": case_2d, "update": case_update, "monitor": case_monitor}
@@ -222,6 +240,9 @@ def run(r) -> None:
     r.run_cases("update-vs-curl", "update", [dict(dim=2, shape=s) for s in g2] + [dict(dim=3, shape=s) for s in ([(5, 6, 7)] if quick else [(5, 6, 7), (7, 5, 6)])])
     mon = [dict(shape=(14, 15, 16), dtype=dt, poisson=ps_, pattern=p + r.seed) for dt in ("float64", "float32")
            for ps_ in ("greens_function_convolution", "fast_diagonalisation") for p in ((0,) if quick else (0, 1, 2))]
+    # with rotational-form transport of a divergence-free vorticity, on grids that are LONG along one axis (every axis)
+    mon += [dict(shape=sh, dtype=dt, poisson="fast_diagonalisation", pattern=r.seed, transport=True) for dt in ("float64", "float32")
+            for sh in ((14, 15, 16), (40, 13, 14), (13, 40, 14), (13, 14, 40)) + (() if quick else ((70, 13, 13),))]
     r.run_cases("simulator-monitor", "monitor", mon)
     r.bounds = {"grids_3d": g3, "grids_2d": g2, "impulses": "every component x every cell", "arithmetic": "exact (Fractions); simulator monitor in float"}
     r.extra["rule"] = "one state per unit impulse (component x cell); identity evaluated at every cell whose stencils avoid the ring"
